@@ -287,6 +287,15 @@ func (m *Machine) visitInstr(fr *frame, instr ssa.Instruction) continuation {
 		fr.env[instr] = fr.get(instr.Iter).(iterator).next(m, fr)
 
 	case *ssa.FieldAddr:
+		if bp, isBP := fr.get(instr.X).(BytePtr); isBP {
+			// a typed view over a byte object (arena-allocated struct): address arithmetic
+			if bp.obj == nil {
+				m.rtPanic(fr, "invalid memory address or nil pointer dereference")
+			}
+			st := mustDeref(instr.X.Type()).Underlying().(*types.Struct)
+			fr.env[instr] = BytePtr{obj: bp.obj, off: m.tc.Bin(OpAdd, bp.off, Const(64, uint64(m.fieldOffset(st, instr.Field))))}
+			break
+		}
 		p, ok := fr.get(instr.X).(*Value)
 		if !ok {
 			panic(engineErr{fmt.Sprintf("FieldAddr on %T in %s", fr.get(instr.X), fr.fn)})
@@ -300,7 +309,7 @@ func (m *Machine) visitInstr(fr *frame, instr ssa.Instruction) continuation {
 		fr.env[instr] = fr.get(instr.X).(Struct)[instr.Field]
 
 	case *ssa.IndexAddr:
-		fr.env[instr] = m.indexAddr(fr, fr.get(instr.X), fr.get(instr.Index).(*Term), instr.Index.Type())
+		fr.env[instr] = m.indexAddrT(fr, instr.X.Type(), fr.get(instr.X), fr.get(instr.Index).(*Term), instr.Index.Type())
 
 	case *ssa.Index:
 		fr.env[instr] = m.indexVal(fr, fr.get(instr.X), fr.get(instr.Index).(*Term), instr.Index.Type())
@@ -647,4 +656,12 @@ func (m *Machine) visitInitInstr(fr *frame, instr ssa.Instruction) (k continuati
 		k = kNext
 	}()
 	return m.visitInstr(fr, instr)
+}
+
+func (m *Machine) fieldOffset(st *types.Struct, field int) int64 {
+	fields := make([]*types.Var, st.NumFields())
+	for i := range fields {
+		fields[i] = st.Field(i)
+	}
+	return m.p.sizes.Offsetsof(fields)[field]
 }
